@@ -44,7 +44,7 @@ def cone(prop_file):
             continue
         seen.add(f)
         src = strip_comments(open(os.path.join(COQ, f)).read())
-        for m in re.finditer(r'From\s+QS\s+Require\s+(?:Import|Export)?\s*([^.]*(?:\.[A-Za-z_][^.\s]*)*)\.', src):
+        for m in re.finditer(r'From\s+QS\s+Require\s+(?:Import\s+|Export\s+)?(.*?)\.(?=\s)', src, re.S):
             for name in m.group(1).split():
                 p = name.replace('.', '/') + '.v'
                 if os.path.exists(os.path.join(COQ, p)):
